@@ -173,11 +173,19 @@ def coq_check_props(pid, timeout=3000):
     if rc == 0:
         closed = out.count("Closed under the global context")
         axioms = set()
-        for m in re.finditer(r"^Axioms:\n((?:.+\n?)+?)(?=^\S|\Z)", out, re.M):
-            for line in m.group(1).split("\n"):
-                mm = re.match(r"^([A-Za-z_][\w.']*)\s*:", line)
-                if mm:
+        in_block = False
+        for line in out.split("\n"):
+            if line.startswith("Axioms:"):
+                in_block = True
+                continue
+            if in_block:
+                mm = re.match(r"^([A-Za-z_][\w.']*)\s*(:|$)", line)
+                if mm and "." in mm.group(1):
                     axioms.add(mm.group(1))
+                elif line.startswith(" ") or line == "":
+                    continue                       # continuation of a type
+                else:
+                    in_block = False
         res["axioms"] = sorted(axioms)
         res["bad_axioms"] = sorted(a for a in axioms if a not in ALLOWED_AXIOMS)
         res["closed"] = closed
